@@ -87,7 +87,7 @@ func c01config(c *Check, rng *rand.Rand, name string, opt EnvOpt, ncases int) {
 			cs.clients = 1 + rng.Intn(16)
 			cs.plen = 1 + rng.Intn(8)
 		}
-		g := &pipeGen{env: env, script: script, rng: rng, gated: true, maxMultiKeys: 5}
+		g := &pipeGen{env: env, script: script, rng: rng, gated: true, maxMultiKeys: 5, errFrag: []int{0, 3, 6}[rng.Intn(3)]}
 		// mix ratios, including "local behind gated forwarded"
 		switch rng.Intn(5) {
 		case 0:
@@ -102,6 +102,32 @@ func c01config(c *Check, rng *rand.Rand, name string, opt EnvOpt, ncases int) {
 			g.wSingle, g.wMulti, g.wPing, g.wAuth, g.wReject, g.wQuit = 4, 4, 0, 0, 0, 0
 		}
 		c01run(c, rng, env, g, cs, name)
+	}
+	// deep pipelines: more than 1024 (the writev limit) completed replies behind a slow head
+	for k := 0; k < c.Pick(1, 6); k++ {
+		n := 1100 + rng.Intn(1500)
+		cl, p, gate, err := deepPipeline(env, script, rng, n)
+		must(err, "deep pipeline")
+		env.Barrier()
+		time.Sleep(50 * time.Millisecond)
+		gate.Open()
+		if !cl.WaitReplies(n, 10*time.Second) {
+			env.Barrier()
+			time.Sleep(time.Second)
+			env.Barrier()
+		}
+		s := cl.Snapshot()
+		for _, is := range checkPipeline(p, s) {
+			c.Violate(Violation{Class: is.Class, Shape: "deep-pipeline-behind-slow-head", Detail: is.Detail[:minInt(len(is.Detail), 200)],
+				Witness: map[string]interface{}{"config": name, "requests": n, "replies": len(s.Replies), "shape": "first request gated, all later ones answered at once"}})
+		}
+		c.Eval(1)
+		c.Distinct(fmt.Sprintf("%s|deep|%d", name, n))
+		c.Count("replies_verified", int64(len(s.Replies)))
+		cl.Close()
+		for _, r := range p {
+			script.Forget(r.Keys...)
+		}
 	}
 	c.Count("race_reports_diagnostic_"+name, int64(env.P.RaceReports()))
 }
